@@ -25,7 +25,7 @@ RULE = ("random histories of 25-60 steps over a 7-path universe (2 top-level mod
         "validate, undo/redo); distinct = multiset of step kinds (bucketed)")
 ASSUMPTIONS = ["external changes are followed by validate(); they change mtime or size (the documented indicator)",
                "automatic_soa / perform_doa off on both sides: accumulated call information is not a cache"]
-BUDGET = {"quick": (260, 75), "thorough": (12000, 900)}
+BUDGET = {"quick": (900, 70), "thorough": (20000, 900)}
 EXHAUSTIVE = {}
 CASE_TIMEOUT = 600
 REQUIRE = {"views_compared": 3000, "module_cache_hits": 1000, "external_then_validate": 200, "filelist_cached_returns": 500}
@@ -182,6 +182,16 @@ def view(project, root):
         entry["occurrences"] = occ
         mods[path] = entry
     v["modules"] = mods
+    pkgs = {}
+    for folder in ("pk", "pk/sub", "pk2", "pk2/sub"):
+        full = os.path.join(root, folder)
+        if os.path.isdir(full):
+            try:
+                po = project.get_pymodule(project.get_folder(folder))
+                pkgs[folder] = {"names": {k: _describe(pn) for k, pn in sorted(po.get_attributes().items())}}
+            except Exception as e:
+                pkgs[folder] = "raised:" + type(e).__name__
+    v["packages"] = pkgs
     return v
 
 
@@ -226,6 +236,8 @@ def _clause(path):
         m = re.search(r"\[(\d+)\]", path)
         return "names:" + {None: "set", "0": "pyname-class", "1": "object-class", "2": "definition-location",
                            "3": "attribute-set", "4": "superclasses-or-resource"}.get(m.group(1) if m else None, "other")
+    if path.startswith("/packages/"):
+        return "package-names"
     if path.startswith("/modules/"):
         return "module-state"
     return "other"
@@ -399,6 +411,10 @@ def run_case(spec):
                     # ---- behind rope's back, then validate
                     sub = rnd.random()
                     p = rnd.choice(PATHS)
+                    if state.get("last_ext") and rnd.random() < 0.45:
+                        p = state["last_ext"]      # hit the same file again (second invalidation of one entry)
+                        sub = 0.0
+                    state["last_ext"] = p
                     full = os.path.join(root, p)
                     if sub < 0.5:
                         if os.path.isdir(os.path.dirname(full)):
